@@ -22,8 +22,8 @@ RUNS = [
 REGIMES = ["meridional", "equatorial", "short-line", "general", "near-antipodal", "coincident", "polar",
            "equatorial-limit", "equatorial-beyond-limit", "near-equator", "near-equator-prolate"]
 KNOWN_REGIMES = ["exact/very-prolate-lon180-same-hemisphere", "exact/prolate-near-equatorial", "oblate-equatorial-limit", "very-oblate-near-cusp",
-                 "exact/very-oblate-equatorial-just-beyond-limit", "exact/very-oblate-near-equatorial-below-limit", "exact/nearly-coincident-points",
-                 "prolate-lon180-lat2-nearly-minus-lat1"]
+                 "exact/very-oblate-equatorial-just-beyond-limit", "very-oblate-near-equatorial-below-limit", "exact/nearly-coincident-points",
+                 "prolate-lon180-lat2-nearly-minus-lat1", "short-line-across-pole-lon12-nearly-180", "exact/prolate-lon12-within-1ulp-of-180"]
 
 
 def extra(res, tier, seed, workdir):
